@@ -121,6 +121,62 @@ func leafFamily(level int) []SCase {
 	return out
 }
 
+// sameNamePairs: two definitions whose names normalise to the same Go type name ("limits" / "Limits"), each an object with one
+// property v (+ a fixed sibling w); the two differ in exactly ONE keyword of v (or of the object). Distinct schemas must keep
+// distinct behaviour however similar they are: every keyword the comparison of "equal" schemas could overlook is one case.
+func sameNamePairs(prefix string) []SCase {
+	str, in, arr := "string", "integer", "array"
+	type pr struct {
+		name string
+		a, b J // property schema v in the two definitions
+		ra   A // required lists of the two objects
+		rb   A
+	}
+	v := A{"v"}
+	pairs := []pr{
+		{"minLength", J{"type": str, "minLength": 2}, J{"type": str, "minLength": 4}, v, v},
+		{"maxLength", J{"type": str, "maxLength": 3}, J{"type": str, "maxLength": 5}, v, v},
+		{"pattern", J{"type": str, "pattern": "^a"}, J{"type": str, "pattern": "^b"}, v, v},
+		{"minimum", J{"type": in, "minimum": 1}, J{"type": in, "minimum": 3}, v, v},
+		{"maximum", J{"type": in, "maximum": 5}, J{"type": in, "maximum": 9}, v, v},
+		{"exclusiveMinimum", J{"type": in, "exclusiveMinimum": 1}, J{"type": in, "exclusiveMinimum": 3}, v, v},
+		{"exclusiveMaximum", J{"type": in, "exclusiveMaximum": 5}, J{"type": in, "exclusiveMaximum": 9}, v, v},
+		{"exclusiveMinimum-bool", J{"type": in, "minimum": 1, "exclusiveMinimum": true}, J{"type": in, "minimum": 1, "exclusiveMinimum": false}, v, v},
+		{"multipleOf", J{"type": in, "multipleOf": 2}, J{"type": in, "multipleOf": 3}, v, v},
+		{"minItems", J{"type": arr, "items": J{"type": in}, "minItems": 1}, J{"type": arr, "items": J{"type": in}, "minItems": 2}, v, v},
+		{"maxItems", J{"type": arr, "items": J{"type": in}, "maxItems": 2}, J{"type": arr, "items": J{"type": in}, "maxItems": 3}, v, v},
+		{"enum", J{"type": str, "enum": A{"a", "b"}}, J{"type": str, "enum": A{"a", "c"}}, v, v},
+		{"default", J{"type": in, "default": 5}, J{"type": in, "default": 7}, nil, nil},
+		{"default-presence", J{"type": in, "default": 5}, J{"type": in}, nil, nil},
+		{"required", J{"type": str}, J{"type": str}, v, nil},
+		{"required-other", J{"type": str}, J{"type": str}, v, A{"w"}},
+		{"nullable", J{"type": str, "minLength": 2}, J{"type": A{str, "null"}, "minLength": 2}, v, v},
+		{"items-type", J{"type": arr, "items": J{"type": in}}, J{"type": arr, "items": J{"type": str}}, v, v},
+		{"keyword-presence", J{"type": str, "minLength": 2}, J{"type": str}, v, v},
+		{"format", J{"type": str, "format": "date"}, J{"type": str}, v, v},
+	}
+	var out []SCase
+	for _, p := range pairs {
+		mk := func(vs J, r A) J {
+			o := J{"type": "object", "properties": J{"v": space.Clone(vs), "w": J{"type": "boolean"}}}
+			if len(r) > 0 {
+				o["required"] = r
+			}
+			return o
+		}
+		for _, order := range []int{0, 1} {
+			a, b, ra, rb := p.a, p.b, p.ra, p.rb
+			if order == 1 {
+				a, b, ra, rb = b, a, rb, ra
+			}
+			out = append(out, SCase{ID: fmt.Sprintf("%s/same-name-pair/%s/order=%d", prefix, p.name, order), Cfg: baseCfg(),
+				Axes:   map[string]string{"pos": "same-name-pair", "leaf": p.name},
+				Schema: J{"type": "object", "properties": J{"x": J{"$ref": "#/$defs/limits"}, "y": J{"$ref": "#/$defs/Limits"}}, "$defs": J{"limits": mk(a, ra), "Limits": mk(b, rb)}}})
+		}
+	}
+	return out
+}
+
 // wrapLeaf places the (possibly modified) leaf schema s at the position and adds the definitions the leaf refers to; ok is
 // false when the position keeps its definitions under the other keyword ("definitions").
 func wrapLeaf(pos space.Position, l space.Leaf, s J, required bool) (J, bool) {
